@@ -55,6 +55,10 @@ type Prop struct {
 	Sub string // sub-check name
 	Gen func(t *rapid.T) bson.D
 	Run func(c bson.D, x *Ctx) error
+	// Live, when set, interleaves drawing and executing (stateful
+	// generation): it returns the case executed so far, which is what gets
+	// recorded for replay through Run.
+	Live func(t *rapid.T, x *Ctx) (bson.D, error)
 }
 
 var (
@@ -82,6 +86,24 @@ func (p *Prop) safeRun(c bson.D, x *Ctx) (err error) {
 	return p.Run(c, x)
 }
 
+func (p *Prop) safeLive(rt *rapid.T, x *Ctx) (c bson.D, err error) {
+	defer func() {
+		if r := recover(); r != nil {
+			// rapid uses panics for control flow (invalid data / stop test)
+			if isRapidPanic(r) {
+				panic(r)
+			}
+			err = fmt.Errorf("panic escaped the property: %v\n%s", r, trimStack(debug.Stack()))
+		}
+	}()
+	return p.Live(rt, x)
+}
+
+func isRapidPanic(r interface{}) bool {
+	s := fmt.Sprintf("%T", r)
+	return strings.HasPrefix(s, "rapid.") || strings.HasPrefix(s, "*rapid.")
+}
+
 func trimStack(b []byte) string {
 	s := string(b)
 	lines := strings.Split(s, "\n")
@@ -95,10 +117,17 @@ func trimStack(b []byte) string {
 func (p *Prop) Check(t *testing.T) {
 	rec := stats.For(p.ID, p.Sub)
 	rapid.Check(t, func(rt *rapid.T) {
-		c := p.Gen(rt)
 		x := &Ctx{Rec: rec}
-		rec.Eval()
-		err := p.safeRun(c, x)
+		var c bson.D
+		var err error
+		if p.Live != nil {
+			rec.Eval()
+			c, err = p.safeLive(rt, x)
+		} else {
+			c = p.Gen(rt)
+			rec.Eval()
+			err = p.safeRun(c, x)
+		}
 		if err != nil {
 			rec.Fail(stats.ExtJSON(c), err.Error())
 			rt.Fatalf("%s/%s violated: %v", p.ID, p.Sub, err)
